@@ -48,8 +48,13 @@ def run_one(sid: str, tier: str, props: list[str] | None, seed: int = 0) -> dict
         for p in props:
             t0 = time.time()
             env = dict(os.environ, PVM_POREPY_SRC=str(wt / "src"), VERIF_SEED=str(seed))
-            r = subprocess.run([str(ROOT / "check"), p, "--tier", tier, "--no-evidence"],
-                               cwd=str(ROOT), env=env, text=True, capture_output=True)
+            for attempt in range(2):
+                r = subprocess.run([str(ROOT / "check"), p, "--tier", tier, "--no-evidence"],
+                                   cwd=str(ROOT), env=env, text=True, capture_output=True)
+                # a fresh worktree has no numba cache: the first run may spend its whole
+                # budget compiling (exit 2, workers timed out); the cache is warm afterwards
+                if r.returncode != 2 or "crashed or timed out" not in r.stdout:
+                    break
             lines = [l for l in r.stdout.splitlines()
                      if l.startswith(("VIOLATION", "INCONCLUSIVE", "#"))]
             out["results"][p] = {"exit": r.returncode, "wall_s": round(time.time() - t0, 1),
